@@ -2,20 +2,17 @@
    Statement + exact + Print Assumptions only.
 
    Model: Model/Slc.v (parse_tag, request bytes, reply parsing of pycomm3/slc_driver.py) over the
-   regular expressions and PCCC tables regenerated into Gen/SlcTables.v, run by Model/Regex.v.
+   regular expressions, the pattern method (fullmatch) and the PCCC tables regenerated into
+   Gen/SlcTables.v, run by Model/Regex.v.
    Oracle: Spec/SlcTarget.v (address ADT, spellings, reference data table and PCCC target).
-
-   [C18_stmt ga gr] is the property with two exclusion predicates; [C18_full] excludes nothing.
-   The faithful model falsifies [C18_full] (three witnesses below); [C18_guarded] is the same
-   statement outside [C18_guard_addr] (file number or element 255: emitted as the PCCC 0xFF escape
-   byte) and [C18_guard_raw] (a digit run longer than the grammar allows: silently truncated by the
-   `search`-applied patterns; an I/O file number above 255: matched and ignored). *)
+   File number / element 255 are covered (the 0xFF escape form of the address fields); digit runs
+   of any length are covered by the rejection clause. *)
 From Coq Require Import String.
 From PV Require Import Base.Bytes Base.Res Base.PyStr Model.Regex Model.SlcVal Model.Slc Spec.SlcTarget.
 From PV Require Import Proofs.RegexP Proofs.SlcParseP Proofs.SlcAddrP Proofs.SlcTargetP Proofs.SlcReqP.
 Open Scope Z_scope.
 
-Definition C18_stmt (ga : addr -> bool) (gr : raw -> bool) : Prop :=
+Definition C18_full : Prop :=
   (* parse_addr: every well-formed address, in every spelling (word form, /b, Bf/n, {count}, letter
      case, leading zeros, optional I/O file number and word), parses to exactly its fields;
      for Bf/n: element = n / 16, bit = n mod 16 (render spells n = 16 * element + bit) *)
@@ -24,24 +21,24 @@ Definition C18_stmt (ga : addr -> bool) (gr : raw -> bool) : Prop :=
   (* request_addresses_exactly: the PCCC command of a read / write, read by the target's own parser,
      names the file number, file type, element and sub-element of the address, size = element
      size x count; a write carries mask 2^bit / 0xFFFF and exactly the words of the value *)
-  /\ (forall c sp a tns, cfg_ok c -> wf_addr a = true -> wf_spelling sp a = true -> ga a = false -> 0 <= tns < 65536 ->
+  /\ (forall c sp a tns, cfg_ok c -> wf_addr a = true -> wf_spelling sp a = true -> 0 <= tns < 65536 ->
         exists t req cmd, read_tag_request c tns (render sp a) = RqOk (t, req)
           /\ target_view req = Some cmd /\ cmd_names cmd c a 162 tns /\ pc_rest cmd = [])
   /\ (forall c sp a tns v dws, cfg_ok c -> wf_addr a = true -> wf_spelling sp a = true -> is_tc (a_ft a) = false ->
-        ga a = false -> 0 <= tns < 65536 -> wwords a v = Some dws ->
+        0 <= tns < 65536 -> wwords a v = Some dws ->
         exists t req cmd, write_tag_request c tns (render sp a) v = RqOk (t, req)
           /\ target_view req = Some cmd /\ cmd_names cmd c a 171 tns
           /\ pc_rest cmd = le16 (wmask a) ++ words_to_bytes dws)
   (* a read returns what the reference interpretation of the address finds in the data table,
      for every prior table; the table is not changed *)
   /\ (forall c tbl sp a v tns pre, cfg_ok c -> table_ok tbl = true -> wf_addr a = true -> wf_spelling sp a = true ->
-        ga a = false -> 0 <= tns < 65536 -> length pre = 46%nat -> ref_read tbl a = Some v ->
+        0 <= tns < 65536 -> length pre = 46%nat -> ref_read tbl a = Some v ->
         exists t req rep, read_tag_request c tns (render sp a) = RqOk (t, req)
           /\ exec_mr tbl req = (tbl, rep) /\ ok_tag (read_tag_finish t (pre ++ rep)) v)
   (* write_then_read: after the write request the target's table IS the reference write; a read of
      the same address then returns the written value (a boolean for a bit) *)
   /\ (forall c tbl sp a v tns tns' pre pre' tbl', cfg_ok c -> table_ok tbl = true -> wf_addr a = true ->
-        wf_spelling sp a = true -> is_tc (a_ft a) = false -> ga a = false ->
+        wf_spelling sp a = true -> is_tc (a_ft a) = false ->
         0 <= tns < 65536 -> 0 <= tns' < 65536 -> length pre = 46%nat -> length pre' = 46%nat ->
         ref_write tbl a v = Some tbl' ->
         exists t wreq wrep rreq rrep,
@@ -61,76 +58,49 @@ Definition C18_stmt (ga : addr -> bool) (gr : raw -> bool) : Prop :=
           /\ (forall j, (j < i \/ i + k <= j)%nat -> nth j (df_words f') 0 = nth j (df_words f) 0)
           /\ (forall b, a_bit a = Some b -> forall j, 0 <= j -> j <> b ->
                 Z.testbit (nth i (df_words f') 0) j = Z.testbit (nth i (df_words f) 0) j))
-  (* reject: an address of the grammar's form (digit runs of any length) with a file, element or
-     bit number outside the ranges, or with an unsupported file letter, does not parse ... *)
-  /\ (forall r, raw_form r = true -> gr r = false -> spec_in_range r = false -> parse_tag (render_raw r) = PNone)
+  (* reject: an address of the grammar's form (digit runs of ANY length) with a file, element or
+     bit number outside the ranges (an I/O file number above 255 included), or with an unsupported
+     file letter, does not parse ... *)
+  /\ (forall r, raw_form r = true -> spec_in_range r = false -> parse_tag (render_raw r) = PNone)
   /\ (forall ch rest, ~ In (lower_c ch) supported_lower -> Forall body_char rest -> parse_tag (ch :: rest) = PNone)
   (* ... and read() / write() turn that into RequestError before anything is sent *)
   /\ (forall c tns s v, parse_tag s = PNone ->
         read_tag_request c tns s = RqErr RequestError /\ write_tag_request c tns s v = RqErr RequestError).
 
-Definition C18_full : Prop := C18_stmt (fun _ => false) (fun _ => false).
 
-(* ---- the excluded classes *)
-Definition C18_guard_addr (a : addr) : bool := (a_file a =? 255) || (a_elem a =? 255).
-Definition C18_guard_raw (r : raw) : bool := overlong r || io_file_out r.
+Theorem C18_holds : C18_full.
+Proof.
+  unfold C18_full.
+  split; [exact parse_addr|].
+  split; [intros c sp a tns Hc Hwf Hsp Ht; apply request_names_read; assumption|].
+  split; [intros c sp a tns v dws Hc Hwf Hsp Htc Ht Hw; apply request_names_write; assumption|].
+  split; [intros c tbl sp a v tns pre Hc Ht Hwf Hsp Htns Hp Hr; apply read_correct; assumption|].
+  split; [intros c tbl sp a v tns tns' pre pre' tbl' Hc Ht Hwf Hsp Htc Htns Htns' Hp Hp' Hw;
+          apply write_then_read; assumption|].
+  split; [exact ref_write_frame|].
+  split; [intros r Hf Hr; destruct (longer 3 (r_file r)) eqn:Elf;
+          [apply reject_long_file; assumption
+          |destruct (overlong_field r) eqn:Eo;
+           [apply reject_overlong; assumption
+           |apply reject_in_limits; [split; [exact Hf|unfold overlong; rewrite Elf, Eo; reflexivity]|exact Hr]]]|].
+  split; [exact reject_letter|].
+  intros c tns s v H. apply none_is_request_error. exact H.
+Qed.
+Print Assumptions C18_holds.
 
-(* N7:1000 — element 1000 is out of range, the address is accepted as N7:100 *)
-Definition w_overlong : raw :=
-  {| r_ft := FN; r_lower := false; r_file := Some [55]; r_elem := [49; 48; 48; 48]; r_sub := None;
-     r_bit := None; r_count := None; r_flat := false; r_mn := [] |}.
-(* I256:0 — the file number is matched and ignored *)
-Definition w_io_file : raw :=
-  {| r_ft := FI; r_lower := false; r_file := Some [50; 53; 54]; r_elem := [48]; r_sub := None;
-     r_bit := None; r_count := None; r_flat := false; r_mn := [] |}.
-(* N7:255 — the element byte 0xFF is the escape to a two-byte field: the target cannot read the command *)
-Definition w_255 : addr := {| a_ft := FN; a_file := 7; a_elem := 255; a_sub := 0; a_bit := None; a_count := 1 |}.
+(* the addresses of the three repaired defects, on the model *)
 Definition sp_plain : spelling :=
   {| sp_lower := false; sp_mn_lower := []; sp_pad_file := 0; sp_pad_elem := 0; sp_pad_sub := 0; sp_pad_bit := 0;
      sp_pad_count := 0; sp_flat_bit := false; sp_io_file := false; sp_io_word := false; sp_count1 := false |}.
 Definition cfg0 : cfg := {| c_vid := [9; 16]; c_vsn := [9; 16; 25; 113] |}.
-
-Lemma C18_witness_overlong :
-  raw_form w_overlong = true /\ spec_in_range w_overlong = false /\ parse_tag (render_raw w_overlong) <> PNone.
-Proof. repeat split; vm_compute; congruence. Qed.
-
-Lemma C18_witness_io_file :
-  raw_form w_io_file = true /\ spec_in_range w_io_file = false /\ parse_tag (render_raw w_io_file) <> PNone.
-Proof. repeat split; vm_compute; congruence. Qed.
-
-Lemma C18_witness_255 :
-  wf_addr w_255 = true /\ wf_spelling sp_plain w_255 = true /\
-  forall t req, read_tag_request cfg0 1 (render sp_plain w_255) = RqOk (t, req) -> target_view req = None.
-Proof.
-  repeat split; try reflexivity. intros t req H. vm_compute in H. inversion H; subst. reflexivity.
-Qed.
-
-Theorem C18_full_refuted : ~ C18_full.
-Proof.
-  intros (_ & _ & _ & _ & _ & _ & Hrej & _).
-  destruct C18_witness_overlong as (F & R & N). apply N. apply Hrej; [exact F|reflexivity|exact R].
-Qed.
-Print Assumptions C18_full_refuted.
-
-Lemma guard_addr_false a : C18_guard_addr a = false -> a_file a <> 255 /\ a_elem a <> 255.
-Proof. unfold C18_guard_addr. intros H. apply orb_false_iff in H. destruct H as [H1 H2]. split; apply Z.eqb_neq; assumption. Qed.
-
-Theorem C18_guarded : C18_stmt C18_guard_addr C18_guard_raw.
-Proof.
-  unfold C18_stmt.
-  split; [exact parse_addr|].
-  split; [intros c sp a tns Hc Hwf Hsp Hg Ht; destruct (guard_addr_false a Hg); apply request_names_read; assumption|].
-  split; [intros c sp a tns v dws Hc Hwf Hsp Htc Hg Ht Hw; destruct (guard_addr_false a Hg); apply request_names_write; assumption|].
-  split; [intros c tbl sp a v tns pre Hc Ht Hwf Hsp Hg Htns Hp Hr; destruct (guard_addr_false a Hg); apply read_correct; assumption|].
-  split; [intros c tbl sp a v tns tns' pre pre' tbl' Hc Ht Hwf Hsp Htc Hg Htns Htns' Hp Hp' Hw;
-          destruct (guard_addr_false a Hg); apply write_then_read; assumption|].
-  split; [exact ref_write_frame|].
-  split; [intros r Hf Hg Hr; unfold C18_guard_raw in Hg; apply orb_false_iff in Hg; destruct Hg as [Ho Hio];
-          apply reject_in_limits; [split; assumption|exact Hr|exact Hio]|].
-  split; [exact reject_letter|].
-  intros c tns s v H. apply none_is_request_error. exact H.
-Qed.
-Print Assumptions C18_guarded.
+Example C18_repaired :
+  parse_tag [78; 55; 58; 49; 48; 48; 48] = PNone                      (* N7:1000 *)
+  /\ parse_tag [78; 55; 58; 48; 47; 49; 48; 48] = PNone               (* N7:0/100 *)
+  /\ parse_tag [73; 50; 53; 54; 58; 48] = PNone                       (* I256:0 *)
+  /\ parse_tag [120; 78; 55; 58; 48] = PNone                          (* xN7:0 *)
+  /\ (exists t, read_tag_request cfg0 1 [78; 55; 58; 50; 53; 53] =    (* N7:255: element FF FF 00 *)
+        RqOk (t, [75; 2; 32; 103; 36; 1; 7; 9; 16; 9; 16; 25; 113; 15; 0; 1; 0; 162; 2; 7; 137; 255; 255; 0; 0])).
+Proof. repeat split; try (vm_compute; reflexivity). eexists. vm_compute. reflexivity. Qed.
 
 (* non-vacuity: B3/17 (spelled "b003/017") addresses word 1, bit 1: the model's write request,
    executed by the target on a concrete table, sets exactly that bit; the read returns True *)
@@ -142,7 +112,7 @@ Definition ex_table : table :=
   [{| df_num := 7; df_ft := FN; df_ew := 1; df_words := [1; 2; 3] |};
    {| df_num := 3; df_ft := FB; df_ew := 1; df_words := [65535; 4; 0] |}].
 Example C18_nonvacuous :
-  wf_addr ex_addr = true /\ wf_spelling ex_sp ex_addr = true /\ C18_guard_addr ex_addr = false
+  wf_addr ex_addr = true /\ wf_spelling ex_sp ex_addr = true
   /\ render ex_sp ex_addr = [98; 48; 48; 51; 47; 48; 49; 55]
   /\ table_ok ex_table = true /\ cfg_ok cfg0
   /\ ref_write ex_table ex_addr (VInt 1) =
@@ -151,9 +121,13 @@ Example C18_nonvacuous :
   /\ (exists t req, write_tag_request cfg0 5 (render ex_sp ex_addr) (VInt 1) = RqOk (t, req)
         /\ fst (exec_mr ex_table req) =
              [{| df_num := 7; df_ft := FN; df_ew := 1; df_words := [1; 2; 3] |};
-              {| df_num := 3; df_ft := FB; df_ew := 1; df_words := [65535; 6; 0] |}]).
+              {| df_num := 3; df_ft := FB; df_ew := 1; df_words := [65535; 6; 0] |}])
+  /\ (exists t req, read_tag_request cfg0 6 (render ex_sp ex_addr) = RqOk (t, req)
+        /\ tr_value (read_tag_finish t (repeat 0 46 ++ snd (exec_mr ex_table req))) = Some (VBool false)
+        /\ ref_read ex_table ex_addr = Some (VBool false)).
 Proof.
   repeat split; try (vm_compute; reflexivity).
   - exists 9, 16, 9, 16, 25, 113. split; reflexivity.
   - eexists. eexists. split; vm_compute; reflexivity.
+  - eexists. eexists. split; [vm_compute; reflexivity|]. split; vm_compute; reflexivity.
 Qed.
